@@ -10,7 +10,6 @@
 (*  (2) Monotonicity of the declarative definition (raising a count or a   *)
 (*      duration, adding a tag set never removes a kept snapshot) is       *)
 (*      checked as an ASSUME over the same bounded domain.                 *)
-(*  (3) The instants table is emitted for the Go driver.                   *)
 (***************************************************************************)
 EXTENDS Fn_Policy, Json, TLC
 
@@ -116,19 +115,29 @@ Sound == kept \subseteq Req(sn, pol) \cup Opt(sn, pol)
 (* ----------------------------------------------------------------------- *)
 (* (2) monotonicity theorem on the bounded domain                          *)
 (* ----------------------------------------------------------------------- *)
+\* pairs a <= b of abstract policies (durations in minutes, 0 = off), computed once
+DurLE(x, y) == x = 0 \/ (y # 0 /\ x <= y)
+APolLE(a, b) ==
+  /\ CountLE(a.last, b.last) /\ CountLE(a.hourly, b.hourly) /\ CountLE(a.daily, b.daily)
+  /\ CountLE(a.weekly, b.weekly) /\ CountLE(a.monthly, b.monthly) /\ CountLE(a.yearly, b.yearly)
+  /\ DurLE(a.within, b.within) /\ DurLE(a.wh, b.wh) /\ DurLE(a.wd, b.wd) /\ DurLE(a.ww, b.ww)
+  /\ DurLE(a.wm, b.wm) /\ DurLE(a.wy, b.wy)
+  /\ SetOf(a.tags) \subseteq SetOf(b.tags)
+LEPairs == {pr \in APols \X APols : APolLE(pr[1], pr[2])}
 MonoHolds ==
   \A l \in MonoLists :
-    LET s == SnOf(l) IN
-    \A a \in APols : \A b \in APols :
-      LET ca == Concrete(s, a)  cb == Concrete(s, b) IN
-      PolLE(ca, cb) => /\ Req(s, ca) \subseteq Req(s, cb)
-                       /\ Req(s, ca) \cup Opt(s, ca) \subseteq Req(s, cb) \cup Opt(s, cb)
-MonoPairs == Cardinality({<<a, b>> \in APols \X APols : a # b /\ PolLE(Concrete(SnOf(<<1>>), a), Concrete(SnOf(<<1>>), b))})
+    LET s  == SnOf(l)
+        C  == [a \in APols |-> Concrete(s, a)]
+        RQ == [a \in APols |-> Req(s, C[a])]
+        RO == [a \in APols |-> RQ[a] \cup Opt(s, C[a])]
+    IN \A pr \in LEPairs :
+         /\ PolLE(C[pr[1]], C[pr[2]])     \* the record-level order used by RecOK agrees with the abstract one
+         /\ RQ[pr[1]] \subseteq RQ[pr[2]]
+         /\ RO[pr[1]] \subseteq RO[pr[2]]
+MonoPairs == Cardinality({pr \in LEPairs : pr[1] # pr[2]})
 
 ASSUME Twin # "none" \/ MonoHolds
 ASSUME PrintT(<<"VERIF_MONO", Cardinality(MonoLists), Cardinality(APols), MonoPairs>>)
 ASSUME PrintT(<<"VERIF_DOMAIN", Cardinality(AllLists), Cardinality(APols)>>)
 
-(* (3) the table for the driver *)
-ASSUME ndJsonSerialize("instants.ndjson", Instants)
 =============================================================================
